@@ -87,6 +87,15 @@ CLAIMED = {
             "estimate within the chi-square 6-sigma band of s2(1-p/n), ~0 noise-free, x k^2 under scaling, order independent; planted "
             "linear variance recovered.",
             NOTE + "Convergence of Powell/LSQR and the bias factor are observed statistically.", "§8 C10"),
+    "C11": ("Lean 4: sorted-permutation theorem for the time axis, lexicographic = numeric order for fixed-width stamps, rejection iff lengths differ, Python reverse-slice arithmetic, little-endian round trip; synthesised vendor file sets as differential correspondence",
+            "Proof: C11_order_is_sorted_permutation, C11_order_by_time, C11_chronological (names that differ in a fixed-width decimal "
+            "stamp sort in time order), C11_length_mismatch_rejected, C11_stack_placement, C11_sensornet_reverse_map "
+            "(REV[end:start:-1] row j = raw row end-j), C11_sensortran_roundtrip. Every run: file sets synthesised from the vendor "
+            "templates (Silixa v4/v6/v7/v8 single+double, Sensornet oryx/sentinel/halo, AP Sensing, Sensortran binary; 1-6 files quick / "
+            "1-12 thorough, arbitrary finite values, shuffled creation order; faults: other point count, truncated file, missing "
+            "companion): every variable compared exactly with the intended records, time axis order and accept/reject vs the model, "
+            "Sensornet window and reverse rows vs the model, Sensortran bytes decoded by the model.",
+            NOTE + "Text/XML parsing is exercised, not modelled; for Sensornet the returned window (not completeness) is judged.", "§8 C11"),
     "C12": ("Lean 4: order/span/midpoint theorems on an integer-nanosecond model of coords_time, same-instant identity for the zone conversion; direct differential correspondence with zoneinfo offsets; readers re-run under four host time zones",
             "Proof: C12_order, C12_span, C12_midpoint (single-ended: midpoint to within 1 s; double-ended: time = end of forward), "
             "C12_same_instant, C12_same_zone. Every run: coords_time over time stamps 1990-2037, acquisition times 1-600 s (whole and "
